@@ -618,41 +618,6 @@ func VH_C04_dispatch_curved_closed() {
 	}
 }
 
-// C04: the offset of an elliptical arc is made of arcs whose radii are the original radii plus
-// and minus the half width (the library's approximation of an ellipse offset), for rotated and
-// unrotated, wide and tall ellipses.  Concrete arcs (half ellipses), concrete half width.
-func VH_C04_offset_arc_radii() {
-	type arc struct{ rx, ry, rot float64 }
-	a := []arc{{6, 3, 0}, {6, 3, 30}, {3, 6, 0}, {6, 3, 120}, {5, 5, 0}}[vChoose(0, 4)]
-	hw := 0.5
-	phi := a.rot * math.Pi / 180
-	// half ellipse from the point at angle 0 to the point at angle pi
-	sx, sy := a.rx*math.Cos(phi), a.rx*math.Sin(phi)
-	p := &Path{}
-	p.MoveTo(sx, sy)
-	p.ArcTo(a.rx, a.ry, a.rot, false, true, -sx, -sy)
-	rec := &vhC04Rec{}
-	rhs, _ := p.offset(hw, vhC04Capper{rec}, vhC04PlainJoiner{rec}, true, 0.01)
-	rmax, rmin := math.Max(a.rx, a.ry), math.Min(a.rx, a.ry)
-	outer, inner := false, false
-	ok := rhs != nil
-	if ok {
-		for i := 0; i < len(rhs.d); i += cmdLen(rhs.d[i]) {
-			if rhs.d[i] == ArcToCmd {
-				rx, ry := rhs.d[i+1], rhs.d[i+2]
-				if vhNear6(rx, rmax+hw) && vhNear6(ry, rmin+hw) {
-					outer = true
-				} else if vhNear6(rx, rmax-hw) && vhNear6(ry, rmin-hw) {
-					inner = true
-				} else {
-					ok = false
-				}
-			}
-		}
-	}
-	vAssert("C04.arcoffset.radii_are_original_plus_minus_half_width", ok && outer && inner)
-}
-
 func vhNear6(a, b float64) bool { return math.Abs(a-b) <= 1e-6 }
 
 // C04 (optimizeClose, used by offset() on closed outlines): it may only move the start of a closed
@@ -729,5 +694,152 @@ func VH_C04_optimizeclose_Q() {
 		vAssert("C04.optimizeclose.same_polygon", closeOK && (same(v) || same(v[1:])))
 	} else {
 		vAssert("C04.optimizeclose.unchanged_when_first_vertex_is_a_corner", vhSameData(p.d, before))
+	}
+}
+
+// C04: the offset curve of an elliptical arc keeps its distance from the arc.  Concrete arcs
+// (radii, rotation and end parameters from grids of exact rationals; circles, wide and rotated
+// ellipses, small and large arcs, both directions), concrete offsets below the smallest radius of
+// curvature ry^2/rx (so that the parallel curve is regular), Offset() of the open arc (no caps, no
+// joins).  Decided by the solver over every point of the returned curve (segment by segment with
+// a symbolic position on the segment) and every point of the full ellipse (rational
+// parametrisation in four charts): their distance is never below |w| - eps.  The companion bound
+// (no vertex farther than |w| + eps from the arc) is a concrete observation per vertex.
+// eps = flattening tolerance + the error of the library's cubic approximation of an ellipse.
+func VH_C04_offset_arc_distance_Q() {
+	vMerge(false)
+	vLeanAsserts(true)
+	type arc struct {
+		rx, ry float64
+		rot    int // index into units: rotation of the ellipse
+		i0, i1 int // indices into units: start and end parameter
+		sweep  bool
+		w      float64
+	}
+	units := [][2]float64{{1, 0}, {0.8, 0.6}, {0, 1}, {-0.6, 0.8}, {-0.96, 0.28}, {-0.6, -0.8}, {5.0 / 13, -12.0 / 13}}
+	arcs := []arc{
+		{4, 1, 0, 5, 6, true, 0.2},   // short flat piece at the bottom
+		{4, 1, 0, 6, 1, true, 0.2},   // around the right tip (largest curvature)
+		{4, 1, 0, 1, 6, true, 0.2},   // large arc over the top, the left tip and the bottom
+		{6, 3, 1, 0, 3, true, 0.9},   // rotated ellipse
+		{6, 3, 3, 4, 1, false, 0.9},  // rotated, clockwise
+		{6, 3, 1, 2, 0, true, 0.9},   // rotated, large arc
+		{3, 6, 0, 0, 2, true, 0.9},   // tall ellipse (stored with swapped radii)
+		{5, 5, 0, 1, 5, true, 0.9},   // circle
+		{5, 5, 0, 1, 5, false, 0.9},  // circle, clockwise, large arc
+		{10, 5, 0, 0, 2, true, 1},    // quarter ellipse of the library's commented-out stroke tests
+	}
+	na := len(arcs)
+	if vTier() == 0 {
+		na = 5 // quick tier: the (4,1) ellipse and two arcs of the rotated (6,3) ellipse
+	}
+	a := arcs[vChoose(0, na-1)]
+	w := a.w
+	if vChoose(0, 1) == 1 {
+		w = -w
+	}
+	cphi, sphi := units[a.rot][0], units[a.rot][1]
+	c0, s0 := units[a.i0][0], units[a.i0][1]
+	c1, s1 := units[a.i1][0], units[a.i1][1]
+	cross := c0*s1 - s0*c1
+	large := (cross < 0) == a.sweep
+	pos := func(c, s float64) Point {
+		return Point{a.rx*c*cphi - a.ry*s*sphi, a.rx*c*sphi + a.ry*s*cphi}
+	}
+	st, en := pos(c0, s0), pos(c1, s1)
+	p := &Path{}
+	p.MoveTo(st.X, st.Y)
+	p.ArcTo(a.rx, a.ry, math.Atan2(sphi, cphi)*180/math.Pi, large, a.sweep, en.X, en.Y)
+	before := vhCopyData(p.d)
+	tol := 0.01
+	o := p.Offset(w, tol)
+	vAssert("C04.arcdist.receiver_unchanged", vhSameData(p.d, before))
+	subs, ok := vhDecode(o.d)
+	vAssert("C04.arcdist.one_open_curve", ok && len(subs) == 1 && !subs[0].closed && len(subs[0].segs) >= 1)
+	if !ok || len(subs) != 1 {
+		return
+	}
+	d := math.Abs(w)
+	eps := 2*tol + 0.01
+	// vertices rounded to 2^-20 (1e-6): keeps the polynomial coefficients of the queries short
+	rnd := func(q Point) Point {
+		return Point{math.Round(q.X*1048576) / 1048576, math.Round(q.Y*1048576) / 1048576}
+	}
+	// the ends of the curve are the ends of the arc moved along the normal: distance d
+	vAssert("C04.arcdist.ends_at_distance", math.Abs(subs[0].start.Sub(st).Length()-d) <= 1e-6 && math.Abs(subs[0].segs[len(subs[0].segs)-1].end.Sub(en).Length()-d) <= 1e-6)
+
+	// a point of the full ellipse: (qc, qs)/qd is a point of the unit circle; everything below is
+	// kept free of divisions (polynomial inequalities in v and t)
+	v := vhReal()
+	vAssume(-1 <= v && v <= 1)
+	qc, qs, qd := 1-v*v, 2*v, 1+v*v
+	switch vChoose(0, 3) {
+	case 1:
+		qc, qs = -qs, qc
+	case 2:
+		qc, qs = -qc, -qs
+	case 3:
+		qc, qs = qs, -qc
+	}
+	Y := pos(qc, qs) // times qd
+	t := vhReal()
+	vAssume(0 <= t && t <= 1)
+	chart2 := -1
+	for _, sg := range subs[0].segs {
+		switch sg.cmd {
+		case LineToCmd:
+			A, B := rnd(sg.start), rnd(sg.end)
+			X := Point{A.X + t*(B.X-A.X), A.Y + t*(B.Y-A.Y)}
+			dx, dy := X.X*qd-Y.X, X.Y*qd-Y.Y
+			vAssert("C04.arcdist.no_point_closer_than_the_offset", dx*dx+dy*dy >= (d-eps)*(d-eps)*qd*qd)
+		case ArcToCmd:
+			// any point of the full ellipse this arc lies on
+			rx2, ry2, phi2 := sg.a[0], sg.a[1], sg.a[2]
+			l2, sw2 := toArcFlags(sg.a[3])
+			cx2, cy2, _, _ := ellipseToCenter(sg.start.X, sg.start.Y, rx2, ry2, phi2, l2, sw2, sg.end.X, sg.end.Y)
+			if chart2 < 0 {
+				chart2 = vChoose(0, 3)
+			}
+			u := 2*t - 1
+			uc, us, ud := 1-u*u, 2*u, 1+u*u
+			switch chart2 {
+			case 1:
+				uc, us = -us, uc
+			case 2:
+				uc, us = -uc, -us
+			case 3:
+				uc, us = us, -uc
+			}
+			cp, sp := math.Cos(phi2), math.Sin(phi2)
+			// X times ud
+			Xx, Xy := cx2*ud+rx2*uc*cp-ry2*us*sp, cy2*ud+rx2*uc*sp+ry2*us*cp
+			dx, dy := Xx*qd-Y.X*ud, Xy*qd-Y.Y*ud
+			vAssert("C04.arcdist.no_point_closer_than_the_offset", dx*dx+dy*dy >= (d-eps)*(d-eps)*qd*qd*ud*ud)
+		default:
+			vAssert("C04.arcdist.segment_kinds", false)
+			return
+		}
+	}
+
+	// concrete companion: every vertex of the curve has a point of the arc within d + eps
+	{
+		th0 := math.Atan2(s0, c0)
+		ext := math.Atan2(cross, c0*c1+s0*s1)
+		if a.sweep && ext < 0 {
+			ext += 2 * math.Pi
+		} else if !a.sweep && ext > 0 {
+			ext -= 2 * math.Pi
+		}
+		far := false
+		for _, sg := range subs[0].segs {
+			best := math.Inf(1)
+			for k := 0; k <= 720; k++ {
+				th := th0 + ext*float64(k)/720
+				q := pos(math.Cos(th), math.Sin(th))
+				best = math.Min(best, q.Sub(sg.end).Length())
+			}
+			far = far || best > d+eps
+		}
+		vAssert("C04.arcdist.no_vertex_farther_than_the_offset", !far)
 	}
 }
